@@ -542,7 +542,10 @@ pub fn gen_case(r: &mut Rng, id: usize, thorough: bool) -> Case {
             }
         }
         let ext = if cpp && g.r.chance(1, 2) { "hpp" } else { "h" };
-        headers.push((format!("c16_{id}_{h}.{ext}"), text));
+        // (with several headers the names sort in the reverse of the order they are given in: the wrapper file must include them
+        // in the given order, the later ones use what the first one sets up)
+        let tag = if nh > 1 { ((b'z' - (h as u8 % 26)) as char).to_string() } else { String::new() };
+        headers.push((format!("c16_{id}_{tag}{h}.{ext}"), text));
     }
     let experimental = g.r.chance(1, 2);
     let pretty = g.r.chance(1, 6);
